@@ -62,6 +62,10 @@ type Hooks struct {
 	// FreeVar resolves a variable that is free in the interpreted body to the pure expression it is defined as in
 	// the enclosing function (nil: leave it symbolic).
 	FreeVar func(v *types.Var) ast.Expr
+	// FreeStruct resolves a captured struct variable that is defined once by a composite literal: the literal and
+	// the names of the fields that are never written afterwards (only those keep the literal's value; every other
+	// field is unknown — it may have been changed by an earlier run of the interpreted body).
+	FreeStruct func(v *types.Var) (*ast.CompositeLit, map[string]bool)
 	// FreeClosure resolves a variable that is free in the interpreted body (declared in the enclosing function)
 	// to the function literal it is bound to, when that binding is unique.
 	FreeClosure func(v *types.Var) *ast.FuncLit
